@@ -20,9 +20,67 @@ def rows_def(name, rows):
 
 def gen_score_graph():
     g = lib.run_impl('score_graph', {})
-    text = (HEADER % 'running bridge_env.score on its complete domain') + 'Open Scope Z_scope.\n' + \
+    text = (HEADER % 'running bridge_env.score on its complete domain') + 'Local Open Scope Z_scope.\n' + \
         rows_def('score_graph', g['rows']) + rows_def('bid_score_graph', g['bid_rows']) + \
         rows_def('passed_out_graph', g['po_rows'])
     lib.write_if_changed(os.path.join(GEN, 'ScoreGraph.v'), text)
     return g
 ALL = [gen_score_graph]
+
+
+# ------------------------------------------------------------------ notation graph (C15)
+def n(x):
+    return str(int(x))
+
+
+def on(x):
+    return 'None' if x is None else f'(Some {int(x)})'
+
+
+def b(x):
+    return 'true' if x else 'false'
+
+
+def pr(*xs):
+    return '(' + ', '.join(xs) + ')'
+
+
+def kv(v):
+    if v is None:
+        return 'None'
+    fb, x, xx, vu, d, lvl, tr = v
+    return '(Some ' + pr(on(fb), b(x), b(xx), n(vu), on(d), on(lvl), on(tr)) + ')'
+
+
+def ob(x):
+    return 'None' if x is None else f'(Some {b(x)})'
+
+
+def gen_notation_graph():
+    g = lib.run_impl('notation_graph', {})
+    s = lib.cstr
+    L = lambda items: '[' + ';\n  '.join(items) + ']'
+    out = [HEADER % 'running every converter of bridge_env on its complete domain']
+    out.append('Definition g_cards : list (nat * string * (nat * nat) * (nat * nat) * (nat * nat)) :=\n ' +
+               L(pr(n(r[0]), s(r[1]), pr(n(r[2][0]), n(r[2][1])), pr(n(r[3][0]), n(r[3][1])), pr(n(r[4][0]), n(r[4][1]))) for r in g['cards']) + '.')
+    out.append('Definition g_ranks : list (string * nat) := ' + L(pr(s(r[0]), n(r[1])) for r in g['ranks']) + '.')
+    out.append('Definition g_card_cmp : list (list nat) :=\n ' + L('[' + ';'.join(n(x) for x in row) + ']' for row in g['card_cmp']) + '.')
+    out.append('Definition g_calls : list (nat * string * nat * nat * option nat * option nat * option nat) :=\n ' +
+               L(pr(n(r[0]), s(r[1]), n(r[2]), n(r[3]), on(r[4]), on(r[5]), on(r[6])) for r in g['calls']) + '.')
+    out.append('Definition g_seats : list (string * nat * string * nat * list nat * list nat) :=\n ' +
+               L(pr(s(r[0]), n(r[1]), s(r[2]), n(r[3]), '[' + ';'.join(n(x) for x in r[4]) + ']', '[' + ';'.join(n(x) for x in r[5]) + ']') for r in g['seats']) + '.')
+    for name in ('is_partner', 'seat_is_vul'):
+        out.append(f'Definition g_{name} : list (list bool) := ' + L('[' + ';'.join(b(x) for x in row) + ']' for row in g[name]) + '.')
+    out.append('Definition g_vuls : list (string * string * nat * nat) := ' + L(pr(s(r[0]), s(r[1]), n(r[2]), n(r[3])) for r in g['vuls']) + '.')
+    out.append('Definition g_vul_inputs : list (string * option nat) := ' + L(pr(s(r[0]), on(r[1])) for r in g['vul_inputs']) + '.')
+    out.append('Definition g_suits : list (string * nat * bool * bool) := ' + L(pr(s(r[0]), n(r[1]), b(r[2]), b(r[3])) for r in g['suits']) + '.')
+    out.append('Definition g_pairs : list (string * nat * nat * list bool) := ' +
+               L(pr(s(r[0]), n(r[1]), n(r[2]), '[' + ';'.join(b(x) for x in r[3]) + ']') for r in g['pairs']) + '.')
+    T = 'list (string * option (option nat * bool * bool * nat * option nat * option nat * option nat) * option bool)'
+    out.append(f'Definition g_contracts : {T} :=\n ' + L(pr(s(r[0]), kv(r[1]), ob(r[2])) for r in g['contracts']) + '.')
+    out.append(f'Definition g_passed_out : {T} :=\n ' + L(pr(s(r[0]), kv(r[1]), ob(r[2])) for r in g['passed_out']) + '.')
+    lib.write_if_changed(os.path.join(GEN, 'NotationGraph.v'), '\n'.join(out) + '\n')
+    return g
+
+
+ALL = [gen_score_graph, gen_notation_graph]
